@@ -7,11 +7,11 @@ const poly = "github.com/TimothyStiles/poly/"
 func init() {
 	m := time.Minute
 	specs["C12"] = spec{BudgetQuick: 5 * m, BudgetThorough: 30 * m}
-	specs["C13"] = spec{Instr: map[string]string{poly + "io/fasta": "sched"}, Procs: 1, BudgetQuick: 2 * m, BudgetThorough: 15 * m}
-	specs["C20"] = spec{Instr: map[string]string{poly + "io/uniprot": "sched"}, Procs: 1, BudgetQuick: 3 * m, BudgetThorough: 20 * m}
-	specs["C08"] = spec{Instr: map[string]string{poly + "transform/codon": "maprange,yield,reset,digest"}, Procs: 1, BudgetQuick: 3 * m, BudgetThorough: 25 * m}
+	specs["C13"] = spec{Race: true, Instr: map[string]string{poly + "io/fasta": "sched"}, Procs: 1, BudgetQuick: 2 * m, BudgetThorough: 15 * m}
+	specs["C20"] = spec{Race: true, Instr: map[string]string{poly + "io/uniprot": "sched"}, Procs: 1, BudgetQuick: 3 * m, BudgetThorough: 20 * m}
+	specs["C08"] = spec{Race: true, Instr: map[string]string{poly + "transform/codon": "maprange,yield,reset,digest"}, Procs: 1, BudgetQuick: 3 * m, BudgetThorough: 25 * m}
 	specs["C07"] = spec{Instr: map[string]string{poly + "transform/codon": "rand", poly + "random": "rand", "github.com/mroth/weightedrand": "rand"}, Procs: 1, BudgetQuick: 3 * m, BudgetThorough: 25 * m}
 	specs["C18"] = spec{Instr: map[string]string{poly + "transform/codon": "rand", "github.com/mroth/weightedrand": "rand"}, Procs: 1, BudgetQuick: 3 * m, BudgetThorough: 25 * m}
 	specs["C03"] = spec{Instr: map[string]string{poly + "io/genbank": "maprange"}, Procs: 1, BudgetQuick: 3 * m, BudgetThorough: 25 * m}
-	specs["C09"] = spec{Instr: map[string]string{poly + "clone": "sched"}, Procs: 1, BudgetQuick: 4 * m, BudgetThorough: 20 * m}
+	specs["C09"] = spec{Race: true, Instr: map[string]string{poly + "clone": "sched"}, Procs: 1, BudgetQuick: 4 * m, BudgetThorough: 20 * m}
 }
